@@ -228,40 +228,81 @@ func (v *visitor) Visit(n ast.Node) ast.Visitor {
 	return v
 }
 
-// requiresQuoting: the concatenation of all string literals assigned to / added to `chars`,
-// in source order, excluding the os.Getenv call (COMP_WORDBREAKS is an input of the model).
+// requiresQuoting: the character set handed to strings.ContainsAny, as the concatenation of its constant
+// parts in order (string literals, package-level string constants, local variables built from them with
+// = / := / +=), excluding the os.Getenv("COMP_WORDBREAKS") term (COMP_WORDBREAKS is an input of the model).
+var pkgConsts = map[string]string{} // package-level string constants of the file being translated
+
 func emitRequiresQuoting(fd *ast.FuncDecl, where string) {
-	var sb strings.Builder
-	okAll := true
-	sawGetenv := false
-	ast.Inspect(fd.Body, func(n ast.Node) bool {
-		as, ok := n.(*ast.AssignStmt)
-		if !ok {
-			return true
-		}
-		if id, ok := as.Lhs[0].(*ast.Ident); !ok || id.Name != "chars" {
-			return true
-		}
-		if call, ok := as.Rhs[0].(*ast.CallExpr); ok && isSel(call.Fun, "os", "Getenv") {
-			if s, ok := constString(call.Args[0], nil); ok && s == "COMP_WORDBREAKS" {
-				sawGetenv = true
-				return true
+	type val struct {
+		s      string
+		getenv bool
+	}
+	locals := map[string]val{}
+	var eval func(e ast.Expr) (val, bool)
+	eval = func(e ast.Expr) (val, bool) {
+		switch v := e.(type) {
+		case *ast.BasicLit, *ast.IndexExpr:
+			s, ok := constString(e, pkgConsts)
+			return val{s, false}, ok
+		case *ast.ParenExpr:
+			return eval(v.X)
+		case *ast.Ident:
+			if l, ok := locals[v.Name]; ok {
+				return l, true
+			}
+			if s, ok := pkgConsts[v.Name]; ok {
+				return val{s, false}, true
+			}
+		case *ast.BinaryExpr:
+			if v.Op == token.ADD {
+				a, ok1 := eval(v.X)
+				b, ok2 := eval(v.Y)
+				return val{a.s + b.s, a.getenv || b.getenv}, ok1 && ok2
+			}
+		case *ast.CallExpr:
+			if isSel(v.Fun, "os", "Getenv") && len(v.Args) == 1 {
+				if s, ok := constString(v.Args[0], nil); ok && s == "COMP_WORDBREAKS" {
+					return val{"", true}, true
+				}
 			}
 		}
-		s, ok := constString(as.Rhs[0], nil)
-		if !ok {
-			okAll = false
-			return true
+		return val{}, false
+	}
+	okAll, found := true, false
+	var result val
+	ast.Inspect(fd.Body, func(n ast.Node) bool {
+		switch v := n.(type) {
+		case *ast.AssignStmt:
+			if id, ok := v.Lhs[0].(*ast.Ident); ok && len(v.Rhs) == 1 {
+				if r, ok := eval(v.Rhs[0]); ok {
+					if v.Tok == token.ADD_ASSIGN {
+						l := locals[id.Name]
+						locals[id.Name] = val{l.s + r.s, l.getenv || r.getenv}
+					} else {
+						locals[id.Name] = r
+					}
+				} else {
+					okAll = false
+				}
+			}
+		case *ast.CallExpr:
+			if isSel(v.Fun, "strings", "ContainsAny") && len(v.Args) == 2 {
+				if r, ok := eval(v.Args[1]); ok {
+					result, found = r, true
+				} else {
+					okAll = false
+				}
+			}
 		}
-		sb.WriteString(s)
 		return true
 	})
-	if !okAll {
+	if !okAll || !found {
 		fmt.Fprintf(&out, "(* UNTRANSLATED bash_requiresQuoting_chars at %s *)\n\n", where)
 		return
 	}
-	define("bash_requiresQuoting_chars", "str", bytesLit(sb.String()), "constant part of `chars` in "+where)
-	define("bash_requiresQuoting_uses_wordbreaks", "bool", map[bool]string{true: "true", false: "false"}[sawGetenv], "")
+	define("bash_requiresQuoting_chars", "str", bytesLit(result.s), "constant part of the ContainsAny set in "+where)
+	define("bash_requiresQuoting_uses_wordbreaks", "bool", map[bool]string{true: "true", false: "false"}[result.getenv], "")
 }
 
 // Less bodies of ByDisplay / ByValue: the field names compared, in order of appearance.
@@ -323,6 +364,23 @@ func main() {
 			}
 			rel, _ := filepath.Rel(repo, path)
 			pkg := f.Name.Name
+			// package-level string constants of this file (folded in declaration order)
+			pkgConsts = map[string]string{}
+			for _, decl := range f.Decls {
+				if gd, ok := decl.(*ast.GenDecl); ok && gd.Tok == token.CONST {
+					for _, sp := range gd.Specs {
+						if vs, ok := sp.(*ast.ValueSpec); ok {
+							for i, nm := range vs.Names {
+								if i < len(vs.Values) {
+									if s, ok := constString(vs.Values[i], pkgConsts); ok {
+										pkgConsts[nm.Name] = s
+									}
+								}
+							}
+						}
+					}
+				}
+			}
 			for _, decl := range f.Decls {
 				v := &visitor{pkg: pkg, file: rel, fset: fset, anyN: map[string]int{}, caseN: map[string]int{}, replN: map[string]int{}}
 				switch dd := decl.(type) {
